@@ -74,6 +74,7 @@ def Ev.orderly (N : Nat) (s : State) : Ev → Bool
   | .throw _ _ => false
   | .interrupt _ _ => false
   | .reinsert _ _ => false
+  | .acquireFails _ => false
   | .acquire k => decide (k < N) &&
       (match s.cur with | some i => (s.tasks i).owns.all (fun l => decide (l < k)) | none => true)
   | _ => true
